@@ -24,6 +24,11 @@ type Case struct {
 	RawHex  string `json:"raw_hex,omitempty"`
 	Release int    `json:"release,omitempty"`       // 0 Release after every Read, 1 never, 2 alternate
 	Omit    bool   `json:"omit_defaults,omitempty"` // leave out min/max equal to the format default
+	// Filter: FINAL_OUTPUT carries an xpath filter on the target that rejects instances containing a
+	// unit flagged Rej
+	Filter bool `json:"filter,omitempty"`
+	// RelChar: EDI schema declares release_character '?'; unit texts are escaped with it
+	RelChar bool `json:"release_char,omitempty"`
 }
 
 type corpusFile struct {
@@ -39,6 +44,7 @@ type H struct {
 	cw       *vh.CaseWriter
 	ran      map[string]int
 	toCoq    int
+	rng      *vh.Rng
 	verbose  bool
 	trace    string // when set: the last 16 cases are written here before each run (crash localisation)
 	recent   []Case
@@ -134,15 +140,15 @@ func (h *H) runCase(c *Case, toCoq, forceOracle bool) *outcome {
 		rawDecls = effective("edi", c.Decls) // names only
 	}
 	eff := effective(c.Driver, c.Decls)
-	out.spec = goSpec(eff, c.Units)
+	out.spec = goSpecCase(c, eff)
 	typed := c.Driver == "direct"
 	var impl *Result
 	if c.Driver == "direct" {
 		out.accepted = true
-		impl = runDirect(eff, c.Units, c.Release)
+		impl = runDirect(eff, c.Units, c.Release, c.Filter)
 	} else {
-		schema := schemaFor(c.Driver, eff0(c), c.Omit)
-		rt, err := validate(c.Driver, schema)
+		schema := schemaFor(c.Driver, eff0(c), c.Omit, c.RelChar)
+		rt, err := validate(c.Driver, schema, c.Filter)
 		out.accepted = err == nil
 		want := modelAccepts(c.Driver, c.Decls)
 		h.sum.Hist(fmt.Sprintf("validate:%s:accepted=%v", c.Driver, out.accepted))
@@ -178,7 +184,7 @@ func (h *H) runCase(c *Case, toCoq, forceOracle bool) *outcome {
 	// a raw-text corpus case on which the tokenizer loses a unit (F8) is outside the unit-level model
 	if toCoq && !(c.RawHex != "" && out.oracle != "") {
 		dl, tm := coqResult(impl)
-		h.cw.Add(fmt.Sprintf("HC (mkHCase %s %s %s %s %s %s)", kindOf(c.Driver), coqDecls(rawDecls), coqUnits(c.Units), dl, tm, vh.CoqBool(out.guard)),
+		h.cw.Add(fmt.Sprintf("HC (mkHCase %s %s %s %s %s %s %s)", kindOf(c.Driver), coqDecls(rawDecls), coqUnits(c.Units), coqRej(c), dl, tm, vh.CoqBool(out.guard)),
 			map[string]interface{}{"case": c, "observed": impl, "greedy_matcher": out.spec, "in_guard": out.guard})
 		h.toCoq++
 	}
@@ -215,7 +221,50 @@ func (h *H) report(c *Case, out *outcome) {
 		"word": wordStr(c.Units), "in_guard": out.guard})
 }
 
+// decorate adds, to a share of the generated cases, the FINAL_OUTPUT filter with randomly flagged
+// units, and for EDI the release character with escaped text in an extra element.
+func (h *H) decorate(c *Case) {
+	r := h.rng
+	us := append([]Unit(nil), c.Units...)
+	if !c.Filter && r.Chance(0.35) {
+		c.Filter = true
+		for i := range us {
+			us[i].Rej = r.Chance(0.35)
+		}
+		h.sum.Hist("with-filter")
+	}
+	if c.Driver == "edi" {
+		c.RelChar = r.Chance(0.5)
+		for i := range us {
+			us[i].Txt = genTxt(r, c.RelChar)
+		}
+		if c.RelChar {
+			h.sum.Hist("edi:release-character")
+		}
+	}
+	c.Units = us
+}
+
+// genTxt: an element value.  With a release character: plain letters, escaped release characters
+// (??), escaped delimiters (?~ ?*), hence runs of '?' of even and odd length, and often an escaped
+// release character right before the real segment terminator.
+func genTxt(r *vh.Rng, relChar bool) string {
+	pieces := []string{"a", "b", "really", "", "Q"}
+	if relChar {
+		pieces = []string{"a", "b", "??", "?~", "?*", "????", "??", "?~", "three"}
+	}
+	t := ""
+	for i, n := 0, r.Between(0, 4); i < n; i++ {
+		t += pieces[r.Pick(len(pieces))]
+	}
+	if relChar && r.Chance(0.3) {
+		t += "??"
+	}
+	return t
+}
+
 func (h *H) generated(c *Case, toCoq bool) {
+	h.decorate(c)
 	out := h.runCase(c, toCoq, false)
 	h.count(c, out)
 	h.report(c, out)
@@ -362,7 +411,7 @@ func main() {
 		return
 	}
 	r := vh.NewRng(o.Seed)
-	h := &H{o: o, ran: map[string]int{}, trace: os.Getenv("C05_TRACE")}
+	h := &H{o: o, ran: map[string]int{}, trace: os.Getenv("C05_TRACE"), rng: r}
 	if f := os.Getenv("C05_SEQ"); f != "" {
 		// crash localisation: run just these cases, in order
 		var seq []Case
@@ -432,6 +481,30 @@ func main() {
 				}
 			})
 		}
+	}
+	// n = 1, target with a filter: every word up to length 4 with EVERY pattern of rejected units
+	// (among them: the instance that reaches max is the rejected one and another follows)
+	for occ := range occurrences {
+		ds := build(forests(1, 3)[0], []attr{{occ: occ, name: 1}}, 0)
+		allWords(alphabet(1), 4, func(us []Unit) {
+			for pat := 0; pat < 1<<uint(len(us)); pat++ {
+				w := append([]Unit(nil), us...)
+				for i := range w {
+					w[i].Rej = pat&(1<<uint(i)) != 0
+				}
+				enumRun++
+				h.generated(&Case{Driver: "direct", Decls: ds, Units: w, Release: enumRun % 3, Filter: true}, coqEvery(20))
+				if enumRun%2 == 0 {
+					drv := formats[fmtTick%3]
+					fmtTick++
+					c := &Case{Driver: drv, Decls: ds, Units: w, Release: enumRun % 3, Omit: pat%2 == 0, Filter: true}
+					eff := effective(drv, ds)
+					if drv != "edi" || noRootRepeat(eff, goSpec(eff, w), w) {
+						h.generated(c, coqEvery(6))
+					}
+				}
+			}
+		})
 	}
 	// n = 2: every hierarchy; every word up to length 4 (quick) / 6 (thorough)
 	wl := 4
